@@ -382,6 +382,29 @@ Definition decode_parts (enc : bytes) : res parts :=
 (* Encode *)
 Definition encode (content sig : bytes) : bytes := content ++ NLNL ++ sig.
 
+(* the serialized form built by assembleAndSign + Encode: header lines joined by newlines, then (only if the body is
+   not empty) a blank line and the body, then a blank line and the signature *)
+Definition content_of (head body : bytes) : bytes := if is_nil_b body then head else head ++ NLNL ++ body.
+
+Definition encode_assertion (h : list (bytes * hv)) (body sig : bytes) : bytes :=
+  encode (content_of (join_lines (format_headers h)) body) sig.
+
+(* ------------------------------------------------------------------ bufio.Reader.Peek(n) over a reader that returns its
+   data in arbitrary pieces: [buf] is what is buffered and unread, [chunks] are the results of the future Read calls.
+   Peek calls fill (one Read each time) until n bytes are buffered or the reader is exhausted; it returns the first n
+   buffered bytes, or everything together with the error when the reader ended first.  Assumed about bufio, not modelled:
+   the buffer is large enough (Decoder.peek re-creates the reader with a larger buffer on ErrBufferFull, carrying the
+   buffered bytes over), Read calls returning no data and no error do not go on forever, and an EOF returned together
+   with data is reported only once the data is used up. *)
+Fixpoint peek_fill (n : nat) (buf : bytes) (chunks : list bytes) : bytes * list bytes * bool :=
+  match chunks with
+  | [] => (buf, [], Nat.ltb (length buf) n)
+  | c :: r => if Nat.leb n (length buf) then (buf, chunks, false) else peek_fill n (buf ++ c) r
+  end.
+
+Definition chunk_peek (n : nat) (buf : bytes) (chunks : list bytes) : bytes * bool :=
+  let '(b, _, hit_eof) := peek_fill n buf chunks in (firstn n b, hit_eof).
+
 (* ------------------------------------------------------------------ the stream decoder over an in-memory reader.
    State: the bytes not yet consumed and whether the reader has already reported end of input (Decoder.err is
    sticky).  peek(size): fewer than size bytes left -> all of them, with the EOF error; otherwise size bytes and the
